@@ -512,5 +512,22 @@ pub fn forward(
 }
 }
 //@endunit
+
+//@unit network.predict prop=C12,C02
+impl Network {
+pub fn predict(&self, input: &tensor::Tensor) -> (r: tensor::Tensor)
+    requires
+        forall|t: usize| #[trigger] self.connect@.contains_key(t) ==> self.connect@[t] <= t,
+        forall|t: usize| #[trigger] self.loopbacks@.contains_key(t) ==> self.loopbacks@[t].0 <= t,
+        //@requires-extra
+    ensures
+        // the prediction is the last activation of the forward pass
+        r == state(*self, *input, self.layers@.len() as int).1[self.layers@.len() as int], //@ob predict_is_the_final_activation_of_forward
+{
+    //@body file=src/network.rs impl=Network fn=predict part=whole rewrites=R19 loops=0
+    //@endbody
+}
+}
+//@endunit
 } // verus!
 fn main() {}
